@@ -899,14 +899,12 @@ def run(ctx):
     ops = binders = levels = terminals = None
     try:
         ops, binders = read_operator_tables(ctx.repo)
-        levels, terminals, _ = read_ladder(ctx.repo)
+        levels, terminals, rules = read_ladder(ctx.repo)
         from harness.props.c07_lean import gen_lean
-        if ctx.write_if_changed("Holpy/C07/Gen.lean", gen_lean(ops, binders, levels, terminals)):
+        if ctx.write_if_changed("Holpy/C07/Gen.lean", gen_lean(ops, binders, levels, terminals, rules)):
             ctx.log("Gen.lean regenerated (changed)")
     except AssertionError as e:
         ctx.broken("translate:c07:tables", str(e))
-    except ImportError:
-        pass
     if os.environ.get("C07_DEV_NO_LEAN"):       # development only: oracle streams without the Lean stage
         ctx.log("C07_DEV_NO_LEAN set: Lean obligations NOT checked in this run")
         ctx.broken("dev:no-lean", "C07_DEV_NO_LEAN is set")
